@@ -4,8 +4,12 @@
      A. osu!      (Formats/Osu.v, OsuSpec.v)       - for ALL charts
      B. Quaver    (Formats/Qua.v, QuaSpec.v)       - for ALL charts and default tables, through qua_denote
      C. StepMania (Formats/SM.v), the grid half    - see the section header *)
-From Coq Require Import ZArith QArith Qround List Bool Sorting.Permutation Lia.
+From Coq Require Import String.
+From Coq Require Import ZArith QArith Qround List Bool Sorting.Permutation Sorting.Sorted Lia.
 From RV Require Import Base.PyNum Base.Text.
+From RV Require Formats.Osu Formats.OsuSpec Formats.Qua Formats.QuaSpec.
+From RV Require Timing.Snapper Timing.Snap Timing.TimingMap Timing.Reseat Timing.Domain2 Formats.SMText Formats.SM
+  Proofs.TimingProofs Proofs.TimingProofs2 Proofs.PermProofs2.
 Import ListNotations.
 
 (* ================================================================== generic: reading a section element by element *)
@@ -39,7 +43,7 @@ Qed.
 
 (* ================================================================== A. osu! *)
 Module OsuPerm.
-From RV Require Import Formats.Osu Formats.OsuSpec.
+Import Formats.Osu Formats.OsuSpec.
 Open Scope Z_scope.
 
 Definition chart_perm (c c' : chart) : Prop :=
@@ -184,7 +188,7 @@ End OsuPerm.
 
 (* ================================================================== B. Quaver *)
 Module QuaPerm.
-From RV Require Import Formats.Qua Formats.QuaSpec.
+Import Formats.Qua Formats.QuaSpec.
 Open Scope Z_scope.
 
 Definition frame_perm (f g : frame) : Prop := f_cols f = f_cols g /\ Permutation (f_rows f) (f_rows g).
@@ -357,10 +361,8 @@ End QuaPerm.
         that, up to ==, for constant metronomes; for mixed metronomes TimingMap.beats really depends on which other
         queries are present, not on their order).  Tempo rows in any order by C10's any-order theorem. *)
 Module SMPerm.
-From RV Require Import Timing.Snapper Timing.Snap Timing.TimingMap Timing.Reseat Timing.Domain2 Formats.SMText Formats.SM
+Import Timing.Snapper Timing.Snap Timing.TimingMap Timing.Reseat Timing.Domain2 Formats.SMText Formats.SM
   Proofs.TimingProofs Proofs.TimingProofs2 Proofs.PermProofs2.
-From Coq Require Import Sorting.Sorted String List.
-Import ListNotations.
 Open Scope Z_scope.
 
 (* ---- replace_at *)
